@@ -406,7 +406,7 @@ class Effects:
 
 class Walker:
     def __init__(self, model, func, consts=None, cell_axioms=None, summaries=None,
-                 loop_invariants=None, effects=None, attr_types=None, param_facts=None):
+                 loop_invariants=None, effects=None, attr_types=None, param_facts=None, no_inline=None):
         self.model = model
         self.func = func
         self.consts = consts or {}
@@ -423,6 +423,10 @@ class Walker:
         self._nstates = 0
         self.inv_report = []   # (loop line, label, kept?)
         self.notes = []
+        self.inline_depth = 0
+        self.root = func
+        self.inlining = no_inline is not None      # None: every call stays a call event
+        self.no_inline = no_inline if no_inline is not None else set()
 
     # -- terms ----------------------------------------------------------
     def fresh(self, kind, name, rng=(None, None), isfloat=False):
@@ -555,12 +559,26 @@ class Walker:
     s_Import = s_ImportFrom = s_Global = s_Nonlocal = s_Pass
 
     def s_Expr(self, s, st):
+        callee = self.inline_target(s.value)
+        if callee is not None:
+            return [(s2, "raise" if val == ("raise",) else "fall", None) for s2, val in self.inline_call(s.value, callee, st)]
         self.ev(s.value, st)
         return [(st, "fall", None)]
 
     def s_Return(self, s, st):
+        callee = self.inline_target(s.value) if s.value is not None else None
+        if callee is not None and self.inline_depth == 0:
+            outs = []
+            for s2, val in self.inline_call(s.value, callee, st):
+                if val == ("raise",):
+                    outs.append((s2, "raise", None))
+                    continue
+                self.emit("ret", s, s2, value=val, implicit=False)
+                outs.append((s2, "return", val))
+            return outs
         v = self.ev(s.value, st) if s.value is not None else None
-        self.emit("ret", s, st, value=v, implicit=False)
+        if self.inline_depth == 0:
+            self.emit("ret", s, st, value=v, implicit=False)
         return [(st, "return", v)]
 
     def s_Raise(self, s, st):
@@ -584,7 +602,72 @@ class Walker:
     def s_Assert(self, s, st):
         return [(st, "fall", None)]
 
+    # -- inlining of helper kernels (statement level) -----------------
+    def inline_target(self, call):
+        """The callee if `call` is a call to a package kernel that should be walked inline (a private helper that no rule treats as a unit)."""
+        if not isinstance(call, ast.Call) or not isinstance(call.func, ast.Name) or self.inline_depth >= 3 or not self.root.is_kernel or not self.inlining:
+            return None
+        callee = self.model.lookup_func(self.func.module, call.func.id)
+        if callee is None or not callee.is_kernel or callee is self.func or callee.name in self.no_inline or callee.name in self.summaries:
+            return None
+        if any(isinstance(a, ast.Starred) for a in call.args) or call.keywords:
+            return None
+        if len(call.args) != len(callee.params):
+            return None
+        return callee
+
+    def inline_call(self, call, callee, st):
+        """Walk `callee` inline from state `st`; returns [(state, value)] for each of its normal exits."""
+        args = [self.ev(a, st) for a in call.args]
+        self.emit("call", call, st, callee=callee, name=callee.name, args=args, kwargs={}, result=None, inlined=True, envsnap=dict(st.env))
+        saved_env, saved_func = st.env, self.func
+        env = {}
+        for p, a in zip(callee.params, args):
+            ty = callee.ptypes.get(p)
+            if isinstance(a, Num) and ty is not None and ty.kind in ("uint", "int") and not ty.is_array:
+                # a typed scalar parameter truncates: transparent only if provably in range
+                lo, hi = ty.range()
+                if not (self.P.prove_le0(a.lin - hi, st.facts) and self.P.prove_le0(Lin.const(lo) - a.lin, st.facts)):
+                    a = Num(Lin.term(self.fresh("cast", repr(ty), ty.range())), ty=ty)
+            env[p] = a
+        st.env = env
+        self.func = callee
+        self.inline_depth += 1
+        try:
+            outs = self.block(callee.body(), st)
+        finally:
+            self.inline_depth -= 1
+            self.func = saved_func
+        res = []
+        for s2, kind, val in outs:
+            if kind in ("fall", "return"):
+                s2.env = dict(saved_env)
+                # arrays may have been rebound only inside the callee's env; memory versions/facts carry over
+                rty = callee.rtype
+                if kind == "fall":
+                    val = Opaque("None")
+                elif isinstance(val, Num) and rty is not None and rty.kind in ("uint", "int"):
+                    lo, hi = rty.range()
+                    if not (self.P.prove_le0(val.lin - hi, s2.facts) and self.P.prove_le0(Lin.const(lo) - val.lin, s2.facts)):
+                        val = Num(Lin.term(self.fresh("cast", repr(rty), rty.range())), ty=rty)
+                res.append((s2, val))
+            elif kind == "raise":
+                s2.env = dict(saved_env)
+                res.append((s2, ("raise",)))
+        return res
+
     def s_Assign(self, s, st):
+        callee = self.inline_target(s.value)
+        if callee is not None:
+            outs = []
+            for s2, val in self.inline_call(s.value, callee, st):
+                if val == ("raise",):
+                    outs.append((s2, "raise", None))
+                    continue
+                for t in s.targets:
+                    self.assign(t, val, s2, s)
+                outs.append((s2, "fall", None))
+            return outs
         v = self.ev(s.value, st)
         for t in s.targets:
             self.assign(t, v, st, s)
@@ -705,6 +788,9 @@ class Walker:
             if n in st.env:
                 st.env[n] = self.havoc(n, st.env[n])
         for a in arrays:
+            v = st.env.get(a)
+            if isinstance(v, Arr):
+                a = v.name
             st.memver[a] = st.memver.get(a, 0) + 1000 + next(self._ids)
 
     def havoc(self, name, old):
@@ -717,11 +803,76 @@ class Walker:
 
     def s_For(self, s, st):
         lp = self.loop_descr(s, st)
+        # a loop over a small constant range is unrolled exactly
+        if lp.kind == "range" and lp.start.is_const() and lp.stop.is_const() and lp.step.is_const() and lp.step.k > 0 \
+                and isinstance(s.target, ast.Name) and not s.orelse and 0 <= (lp.stop.k - lp.start.k) <= 8 * lp.step.k \
+                and not any(isinstance(n, (ast.Break, ast.Continue)) for b in s.body for n in walk_no_nested(b)):
+            live = [st]
+            outs = []
+            for i in range(lp.start.k, lp.stop.k, lp.step.k):
+                nxt = []
+                for cur in live:
+                    cur.env[s.target.id] = Num(Lin.const(i))
+                    for r in self.block(s.body, cur):
+                        if r[1] == "fall":
+                            nxt.append(r[0])
+                        else:
+                            outs.append(r)
+                live = nxt
+            outs.extend((x, "fall", None) for x in live)
+            return outs
         return self.run_loop(s, st, lp, s.body, s.orelse)
 
     def s_While(self, s, st):
+        cl = self.counter_while(s, st)
+        if cl is not None:
+            return self.run_loop(s, st, cl, s.body, s.orelse)
         lp = Loop(s, "while")
         return self.run_loop(s, st, lp, s.body, s.orelse, test=s.test)
+
+    def counter_while(self, s, st):
+        """`i = a ... while i < n: body; i += 1`  ==  `for i in range(a, n)` when i is changed only by the final increment."""
+        t = s.test
+        if not (isinstance(t, ast.Compare) and len(t.ops) == 1 and not s.orelse):
+            return None
+        var = bound = None
+        if isinstance(t.ops[0], ast.Lt) and isinstance(t.left, ast.Name):
+            var, bound = t.left.id, t.comparators[0]
+        elif isinstance(t.ops[0], ast.Gt) and isinstance(t.comparators[0], ast.Name):
+            var, bound = t.comparators[0].id, t.left
+        if var is None or not s.body:
+            return None
+        last = s.body[-1]
+        inc_ok = False
+        if isinstance(last, ast.AugAssign) and isinstance(last.op, ast.Add) and isinstance(last.target, ast.Name) and last.target.id == var:
+            inc_ok = True
+            inc = last.value
+        elif isinstance(last, ast.Assign) and isinstance(last.targets[0], ast.Name) and last.targets[0].id == var \
+                and isinstance(last.value, ast.BinOp) and isinstance(last.value.op, ast.Add):
+            l, r = last.value.left, last.value.right
+            if isinstance(l, ast.Name) and l.id == var:
+                inc_ok, inc = True, r
+            elif isinstance(r, ast.Name) and r.id == var:
+                inc_ok, inc = True, l
+        if not inc_ok:
+            return None
+        iv = self.ev(inc, st)
+        if not (isinstance(iv, Num) and iv.lin == Lin.const(1)):
+            return None
+        others = [n for b in s.body[:-1] for n in walk_no_nested(b)
+                  if (isinstance(n, ast.Name) and n.id == var and isinstance(n.ctx, ast.Store)) or isinstance(n, (ast.Continue, ast.Break))]
+        if others:
+            return None
+        bnames = {n.id for n in ast.walk(bound) if isinstance(n, ast.Name)}
+        if bnames & assigned_names(s.body):
+            return None
+        start = st.env.get(var)
+        bv = self.ev(bound, st)
+        if not (isinstance(start, Num) and isinstance(bv, Num)):
+            return None
+        lp = Loop(s, "range", var)
+        lp.start, lp.stop, lp.step = start.lin, bv.lin, Lin.const(1)
+        return lp
 
     def loop_descr(self, s, st):
         it = s.iter
@@ -1369,6 +1520,9 @@ class Walker:
         ev = self.emit("call", e, st, callee=callee, name=callee.name, args=args, kwargs=kwargs, result=None,
                        envsnap=dict(st.env))
         for r in self.effects.call_writes(self.func, e):
+            v0 = st.env.get(r)
+            if isinstance(v0, Arr):
+                r = v0.name
             st.memver[r] = st.memver.get(r, 0) + 1
         res = None
         sm = self.summaries.get(callee.name)
